@@ -91,6 +91,8 @@ class Check(Property):
             op = rng.choice(["sum", "mul", "delta", "delta,div", "div", "invdiv", "variance", "square", "sqrt", "reciprocal", "size"])
             first = rng.choice(rng.choice(fams))
             args = [[[first, "1/1"]]] + [([[rng.choice(rng.choice(fams)), "1/1"]] if rng.random() < 0.8 else None) for _ in range(rng.randint(0, 2))]
+            if rng.random() < 0.25:
+                args = [None] + args          # a bare first argument: the "first input units" are those of the first QUANTITY
             o_ = {"op": "np", "f": "unit", "uop": op, "first": [[first, "1/1"]], "args": args}
             if op == "size":
                 o_["size"] = frac_s(rng.randint(1, 4))
@@ -356,8 +358,57 @@ class Check(Property):
                             v.append(f"{tag}, {label} {q!r}: bare number gives {a_!r}, Quantity(x, 'dimensionless') gives {b_!r}")
         return v
 
+    def known_probes(self):
+        """run once per check: behaviours that were met on the unmodified code, shown on the real code here and recorded as
+        known findings (each line carries its tag)"""
+        import numpy as np
+        import pint
+        v = []
+        u = regs.fresh("float")
+        q = u.Quantity(np.array([1.0, 2.0, 3.0]), "meter")
+        with warnings.catch_warnings():
+            warnings.simplefilter("ignore")
+            try:
+                r = np.sum(q, initial=u.Quantity(100.0, "centimeter"))
+                if not np.isclose(r.to("meter").magnitude, 7.0):
+                    v.append(f"C16 [known finding F53] np.sum([1, 2, 3] m, initial=100 cm) = {r!r}; NumPy on consistent magnitudes gives 7 m")
+                r = np.diff(q, prepend=u.Quantity(50.0, "centimeter"))
+                if not np.allclose(r.to("meter").magnitude, [0.5, 1.0, 1.0]):
+                    v.append(f"C16 [known finding F53] np.diff([1, 2, 3] m, prepend=50 cm) = {r!r}; NumPy on consistent magnitudes gives [0.5, 1, 1] m")
+            except Exception as exc:  # noqa: BLE001
+                v.append(f"C16 probe sum/diff raised {type(exc).__name__}: {exc}")
+            try:
+                # a bare coefficient matrix: the solution carries the unit of the right-hand side and A @ x reproduces it
+                A_ = np.array([[2.0, 1.0], [0.0, 4.0]])
+                for b_ in (u.Quantity(np.array([3.0, 8.0]), "second"), u.Quantity(np.array([3000.0, 8000.0]), "millisecond")):
+                    x_ = np.linalg.solve(A_, b_)
+                    if not hasattr(x_, "units") or x_.units != b_.units or not np.allclose((A_ @ x_.magnitude), b_.magnitude):
+                        v.append(f"C16 np.linalg.solve(bare matrix, {b_!r}) = {x_!r}: A @ x does not reproduce the right-hand side with its unit")
+            except Exception as exc:  # noqa: BLE001
+                v.append(f"C16 probe linalg.solve raised {type(exc).__name__}: {exc}")
+            try:
+                p = u.Quantity(np.array([50.0, 50.0]), "percent")
+                p.cumprod()
+                if str(p.units) != "percent" or list(p.magnitude) != [50.0, 50.0]:
+                    v.append(f"C16 [known finding F54] Quantity([50, 50] percent).cumprod() left its receiver as {p!r} (inputs are never modified)")
+            except Exception as exc:  # noqa: BLE001
+                v.append(f"C16 probe cumprod raised {type(exc).__name__}: {exc}")
+            try:
+                r = np.add(u.Quantity(np.array([10.0]), "degC"), u.Quantity(np.array([50.0]), "degF"))
+                v.append(f"C16 [known finding F56] np.add([10] degC, [50] degF) = {r!r}; the + operator refuses it (OffsetUnitCalculusError)")
+            except pint.errors.OffsetUnitCalculusError:
+                pass
+            except Exception as exc:  # noqa: BLE001
+                v.append(f"C16 probe np.add on offset units raised {type(exc).__name__}: {exc}")
+        return v
+
     def oracle(self, c):
         import numpy as np
+        if not getattr(self, "_known_done", False):
+            self._known_done = True
+            kv = self.known_probes()
+            if kv:
+                return kv
         if c["kind"] == "barenum":
             return self.oracle_barenum(c)
         if c["kind"] == "opunit":
